@@ -1,5 +1,7 @@
 import FeatModel.Lemmas.C01Csr
 import FeatModel.Lemmas.C01Banded
+import FeatModel.Lemmas.C01Cscr
+import FeatModel.Lemmas.C01Bcsr
 import FeatModel.Model.LA.Index32
 /-! the unbounded-`Nat` index model is faithful for 32-bit indices under explicit size hypotheses -/
 namespace FeatModel.LA
@@ -59,4 +61,48 @@ theorem store32_eq {A : Banded α} (h : A.WF) (hdim : A.rows + A.cols ≤ 2 ^ 32
     rw [trunc32_of_lt (hoff c hc)]
 
 end Banded
+namespace Cscr
+variable {α : Type}
+
+theorem store32_eq {A : Cscr α} (h : A.WF) (hnnz : A.val.size < 2 ^ 32) (hcols : A.cols ≤ 2 ^ 32)
+    (hrows : A.rows ≤ 2 ^ 32) : A.store32 = A := by
+  have hc := Csr.store32_eq h.csr hnnz hcols
+  have h1 : A.rowPtr.map trunc32 = A.rowPtr := by
+    have := congrArg Csr.rowPtr hc
+    simpa [Csr.store32, Cscr.compressedCsr] using this
+  have h2 : A.colInd.map trunc32 = A.colInd := by
+    have := congrArg Csr.colInd hc
+    simpa [Csr.store32, Cscr.compressedCsr] using this
+  have h3 : A.rowNumbers.map trunc32 = A.rowNumbers := by
+    apply map_trunc32_eq
+    intro k hk
+    have := h.rnLt k hk
+    have e : A.rowNumbers.getD k 0 = A.rowNumbers[k] := by simp [Array.getD, hk]
+    omega
+  simp [store32, h1, h2, h3]
+
+end Cscr
+
+namespace Bcsr
+variable {α : Type}
+
+theorem store32_eq {A : Bcsr α} (h : A.WF) (hnnz : A.colInd.size < 2 ^ 32) (hcols : A.cols ≤ 2 ^ 32) :
+    A.store32 = A := by
+  have h1 : A.rowPtr.map trunc32 = A.rowPtr := by
+    apply map_trunc32_eq
+    intro i hi
+    have hle : i ≤ A.rows := by rw [h.size] at hi; omega
+    have := rowPtr_mono h A.rows i hle (Nat.le_refl _)
+    rw [h.last] at this
+    have e : A.rowPtr.getD i 0 = A.rowPtr[i] := by simp [Array.getD, hi]
+    omega
+  have h2 : A.colInd.map trunc32 = A.colInd := by
+    apply map_trunc32_eq
+    intro k hk
+    have := h.colLt k hk
+    have e : A.colInd.getD k 0 = A.colInd[k] := by simp [Array.getD, hk]
+    omega
+  simp [store32, h1, h2]
+
+end Bcsr
 end FeatModel.LA
